@@ -47,8 +47,24 @@ def rules(model: Model, tier: str) -> List[RuleResult]:
     ac.ac6_layout(model, fc, R6)
     _ift_system(fc, J)
     _pullback(fc, U)
+    # the Jacobian operator used by the backward must re-evaluate consistently in both products (J^H x is the second-order path)
+    from .c17 import refresh_consistency
+    RJ = RuleResult(PROP, "C04-R", "the Jacobian operator refreshes its parameters identically in mv and rmv (the rmv path carries the second-order pull-back)", min_instances=2)
+    refresh_consistency(model, RJ)
+    # the linear solve inside the backward returns the gradient w.r.t. its right-hand side on every path: the second-order gradient of the root finder flows through it
+    RB = RuleResult(PROP, "C04-B", "solve_torchfcn.backward returns a gradient for B on every exit (no all-None shortcut)", min_instances=1)
+    _sfc = ac.get_fncls(model, "solve_torchfcn")
+    _bi = _sfc.fixed.index("B")
+    for _r in ac.own_returns(_sfc.backward):
+        _v = _r.value
+        _ok = isinstance(_v, ast.Tuple) and len(_v.elts) > _bi and not (isinstance(_v.elts[_bi], ast.Constant) and _v.elts[_bi].value is None) and not isinstance(_v.elts[_bi], ast.Starred)
+        if _ok:
+            RB.ok(_sfc.backward.fq, "return slot of B is `%s`" % ast.unparse(_v.elts[_bi]))
+        else:
+            RB.bad(_sfc.backward, _r, "solve_torchfcn.backward has an exit without the gradient A^-H grad_x for B (e.g. an all-None shortcut for the zero right-hand side): in the "
+                   "root finder's backward B is the cotangent -dL/dy, so at a stationary point the whole second derivative flows through this slot")
     _hy = ac.hygiene_rules(model, ac.get_fncls(model, '_RootFinder'), PROP, min_copies=1, min_opt=2, min_conv=0, min_idx=4)
-    return [R1, R2, R3, R4, R5, R6, J, U, *_hy]
+    return [R1, R2, R3, R4, R5, R6, J, U, *_hy, RJ, RB]
 
 
 def _saved_output_names(fc) -> set:
